@@ -241,6 +241,30 @@ impl Expression for DelFn {
             state.external = false_result.merge(true_result);
         }
 
+        // Deleting from a variable changes the variable: its type loses the path (with either
+        // outcome when `compact` is not known) and a recorded constant is no longer its value.
+        if let Some(ident) = self.query.variable_ident()
+            && let Some(details) = state.local.variable(ident).cloned()
+        {
+            let path = self.query.path();
+            let mut type_def = details.type_def;
+            if let Some(compact) = compact {
+                type_def.remove(path, compact);
+            } else {
+                let mut compacted = type_def.clone();
+                compacted.remove(path, true);
+                type_def.remove(path, false);
+                type_def = type_def.union(compacted);
+            }
+            state.local.insert_variable(
+                ident.clone(),
+                crate::compiler::type_def::Details {
+                    type_def,
+                    value: None,
+                },
+            );
+        }
+
         TypeInfo::new(state, return_type)
     }
 }
